@@ -280,6 +280,10 @@ class Check:
     def finish(self, level, level_text, trusted_base, checker_cmd, rule, extra=None):
         os.makedirs(os.path.join(VERIF, 'evidence'), exist_ok=True)
         rdir = os.path.join(VERIF, 'replays', self.pid)
+        if os.path.isdir(rdir):           # replay files describe THIS run only
+            for f in os.listdir(rdir):
+                if f.endswith('.json'):
+                    os.remove(os.path.join(rdir, f))
         lines = []
         for k in self.known:
             if k['signature'] in self.known_seen:
